@@ -9,7 +9,8 @@ export function runSem(property, which, buildCoverage) {
   const rep = new Reporter(property);
   let doc;
   try {
-    const out = execFileSync(path.join(BIN, "sem"), [which, TIER, String(SEED)], { encoding: "utf8", maxBuffer: 1 << 28, timeout: 3 * 3600 * 1000 });
+    // caps: 20 GB of address space (an explosion ends as an allocation failure, not as a frozen sandbox) and a wall limit
+    const out = execFileSync("bash", ["-c", 'ulimit -v 20000000; exec "$0" "$@"', path.join(BIN, "sem"), which, TIER, String(SEED)], { encoding: "utf8", maxBuffer: 1 << 28, timeout: (TIER === "thorough" ? 180 : 20) * 60 * 1000 });
     doc = JSON.parse(out);
   } catch (e) {
     rep.machineryError("sem " + which + " failed: " + String(e.message).slice(0, 300));
